@@ -95,7 +95,28 @@ def entry_state(ex, con, fs):
     return st
 
 
+_TIMING_SENSITIVE = ('unknown kind', 'not known to be', 'may be inf/nan', 'of unknown class', 'non-object')
+
+
 def verify_function(ident, registry=None, keep_models=True, vc_timeout=None, case=None):
+    """verify one function under contract.  'Unsupported' verdicts that stem from a path query left undecided within the short
+    per-query budget (the executor could not establish the kind of a value in time) are retried once with a 4x budget: such
+    verdicts must not depend on machine load."""
+    from . import state as _state
+    res = _verify_function(ident, registry, keep_models, vc_timeout, case)
+    if res.status == 'UNSUPPORTED' and any(k in (res.detail or '') for k in _TIMING_SENSITIVE):
+        saved = _state.QUERY_TIMEOUT_MS
+        _state.QUERY_TIMEOUT_MS = saved * 4
+        try:
+            res2 = _verify_function(ident, registry, keep_models, vc_timeout, case)
+        finally:
+            _state.QUERY_TIMEOUT_MS = saved
+        res2.time += res.time
+        return res2
+    return res
+
+
+def _verify_function(ident, registry=None, keep_models=True, vc_timeout=None, case=None):
     reg = registry if registry is not None else api.REGISTRY
     con = reg[ident]
     res = FuncResult(ident)
